@@ -853,6 +853,11 @@ def judge_dec(v, resp):
             return
     want = node_to_native(v["val"]) if not F else None
     n = len(v["bytes"])
+    # C01: memory in proportion to the input (the harness reports the peak of live allocations of the request:
+    # the three decodes, the re-encoding and their JSON renderings; a kilobyte-sized input stays far below this)
+    peak = resp.get("peak")
+    if isinstance(peak, int) and peak > (1 << 20) + 8192 * n:
+        yield ("C01", "allocation_out_of_proportion", {"peak_bytes": peak, "input_octets": n})
     # decode
     if not F:
         if "ok" not in d:
